@@ -35,7 +35,7 @@ ASSUMPTIONS = [
     'virtual children are bound to real child processes by the byte-level conformance cases of C07',
 ]
 BOUND = {
-    'quick': 'k=2 children: preemption bound 2 (1 with 8-byte pipes), N in 1..3, 3 collectors, 2 pipe capacities, 4 script pairs (two with a spawn failure: last / first layer); k=3: bound 0, N in 1..4 (bound 1 for the start-dependency script at N=2,3); worlds: 6 shapes x <=1 outcome (9 kinds incl. fd-2 noise and a failing id with FF/LS/NEL/FS/VT) x -j1..-j4 x -v0..2',
+    'quick': 'k=2 children: preemption bound 2 (1 with 8-byte pipes), N in 1..3, 3 collectors, 2 pipe capacities, 4 script pairs (two with a spawn failure: last / first layer); k=3: bound 0, N in 1..4 (bound 1 for the start-dependency script at N=2,3); worlds: 6 shapes x <=1 outcome (10 kinds incl. fd-2 noise, a failing id with FF/LS/NEL/FS/VT and output lines starting with a dot) x -j1..-j4 x -v0..2, and --shuffle under -j2/-j3 against the sequential order x -j1..-j4 x -v0..2',
     'thorough': 'k=2: preemption bound 3 (2 with 8-byte pipes); k=3: bound 2; k=4: bound 1, N in 2..5; worlds with <=2 outcomes',
 }
 CHUNK = 1
@@ -126,6 +126,9 @@ def cases(tier, seed):
                 yield ['realorder', list(perm), [N, v]]
     for N in (1, 2):
         yield ['realorder', ['A', 'B', 'C'], [N, 0]]
+    # --shuffle: children must use the order of the sequential run
+    for sd in range(8 if tier == 'quick' else 64):
+        yield ['shuffle', sd, None]
     # (b) worlds
     K = 1 if tier == 'quick' else 2
     menu = ['fail', 'error', 'uxs', 'sub:1,1,0', 'skip_body', 'body+teardown',
@@ -134,7 +137,9 @@ def cases(tier, seed):
             {'s': 'body+teardown', 'w': [['fd2', 'warning: x\nwarning: y\n', False]]},
             # failing ids with characters str.splitlines() treats as line
             # breaks but the report protocol does not
-            {'s': 'sub:1,1,0', 'subm': 'page one\x0cpage two\u2028three\x85four\x1cfive\x0bsix'}]
+            {'s': 'sub:1,1,0', 'subm': 'page one\x0cpage two\u2028three\x85four\x1cfive\x0bsix'},
+            # output lines that begin like the keep-alive dot lines of a child
+            {'s': 'pass', 'w': [['o', '.TOKhidden file\n... TOKellipsis ok\n./TOKconfigure\n.\n', False]]}]
     for shape in ow.SHAPES:
         nslots = len(ow.SHAPES[shape][1])
         block = []
@@ -480,6 +485,68 @@ def run_worlds(shape, block):
                 hb = runrt.HDR_RE.findall(base.text)
                 if [x for x in hs if x != '.EmptyLayer'] != hb:
                     viol.append(('layer_blocks_out_of_order', sig, d + '%s vs %s' % (hs, hb)))
+                # what the tests printed stays inside its layer's block
+                tb, tj = _tokens_by_section(base.text), _tokens_by_section(r.text)
+                if tb != tj:
+                    viol.append(('test_output_not_in_its_layer_block', sig, d + 'tokens per block %s, sequential %s' % (tj, tb)))
+        # --shuffle: every child must run its layer in the order the
+        # sequential run uses (same seed)
+        sh = ['--shuffle', '--shuffle-seed', '5']
+        b2 = runrt.run_world(spec, sh, probe=False)
+        evals += 1
+        for N in (2, 3):
+            r = runrt.run_world(spec, ['-j%d' % N] + sh, probe=False)
+            evals += 1
+            ob, oj = _order_by_layer(spec, b2), _order_by_layer(spec, r)
+            if ob != oj:
+                viol.append(('shuffled_order_differs_from_sequential', {'N': N, 'v': 0}, 'shape %s scripts %s -j%d %s: per-layer execution order %s, sequential %s' % (shape, sc, N, sh, oj, ob)))
+            if (r.failed, r.ran, sorted(r.failures), sorted(r.errors)) != (b2.failed, b2.ran, sorted(b2.failures), sorted(b2.errors)):
+                viol.append(('verdict_or_lists_differ', {'N': N, 'v': 0}, 'shape %s scripts %s -j%d %s' % (shape, sc, N, sh)))
+    return evals, viol
+
+
+TOK_RE = re.compile(r'TOK\w+')
+
+
+def _tokens_by_section(text):
+    d = {}
+    for name, body in runrt.parse_sections(text):
+        if name == '.EmptyLayer':
+            continue
+        d[name] = sorted(TOK_RE.findall(body))
+    return d
+
+
+def _order_by_layer(spec, res):
+    lay = {t['n']: t.get('l') for t in spec['tests']}
+    d = {}
+    for ev in res.trace:
+        if ev[1] == 't' and ev[3] == 'body':
+            d.setdefault(lay[ev[2]], []).append(ev[2])
+    return d
+
+
+def run_shuffle(sd):
+    layers = [{'n': n, 'b': [], 'k': 'c', 'h': list(worlds.HOOKS_SD)} for n in 'ABC']
+    tests = [{'n': 'u%d' % i, 'l': None, 's': 'pass'} for i in range(3)]
+    for n in 'ABC':
+        for i in range(4):
+            tests.append({'n': '%s%d' % (n.lower(), i), 'l': n, 's': 'fail' if (n, i) == ('B', 2) else 'pass'})
+    spec = {'layers': layers, 'tests': tests}
+    sh = ['--shuffle', '--shuffle-seed', str(sd)]
+    base = runrt.run_world(spec, sh, probe=False)
+    ob = _order_by_layer(spec, base)
+    viol = []
+    evals = 1
+    for argv in (['-j2'], ['-j3'], ['-j4', '-vv']):
+        r = runrt.run_world(spec, argv + sh, probe=False)
+        evals += 1
+        oj = _order_by_layer(spec, r)
+        sig = {'N': int(argv[0][2:]), 'v': 0, 'cfg': 'shuffle'}
+        if oj != ob:
+            viol.append(('shuffled_order_differs_from_sequential', sig, 'seed %d %s: per-layer execution order %s, sequential %s' % (sd, argv, oj, ob)))
+        if (r.failed, r.ran, sorted(r.failures), sorted(r.errors)) != (base.failed, base.ran, sorted(base.failures), sorted(base.errors)):
+            viol.append(('verdict_or_lists_differ', sig, 'seed %d %s' % (sd, argv)))
     return evals, viol
 
 
@@ -547,6 +614,10 @@ def run_case(case):
         viol = [{'clause': c, 'sig': s, 'detail': d} for c, s, d in vs]
         return {'evals': evals, 'nontrivial': evals, 'violations': viol, 'outcome': 'realorder', 'nogate': True,
                 'counters': {'real_process_runs': evals}}
+    if case[0] == 'shuffle':
+        evals, vs = run_shuffle(case[1])
+        viol = [{'clause': c, 'sig': sg, 'detail': d} for c, sg, d in vs]
+        return {'evals': evals, 'nontrivial': evals, 'violations': viol, 'outcome': 'shuffle'}
     if case[0] == 'worlds':
         evals, vs = run_worlds(case[1], case[2])
         viol = [{'clause': c, 'sig': s, 'detail': d} for c, s, d in vs[:20]]
